@@ -296,6 +296,16 @@ class InlinedProgram(object):
             funcs = new
             if not any_change:
                 break
+        # single-assignment pointer locals (`r = &x->range`, `head = x->pathHead`) are replaced by what they stand for
+        self.propagated = 0
+        for name in list(funcs):
+            f = funcs[name]
+            for _ in range(12):
+                f, ch = copy_propagate(f)
+                if not ch:
+                    break
+                self.propagated += 1
+            funcs[name] = f
         # helpers that are no longer called by anyone disappear
         called = set()
         for f in funcs.values():
@@ -315,3 +325,195 @@ class InlinedProgram(object):
                     else:
                         indirect.append(i)
         return direct, indirect
+
+
+# ---- copy propagation of single-assignment locals (address aliases and value copies) -------------------------------
+def _pure(e):
+    if e is None:
+        return False
+    for n in e.walk():
+        if n.k not in ('ref', 'member', 'un', 'index', 'cast', 'int', 'paren', 'bin', 'sizeof'):
+            return False
+        if n.k == 'un' and n.v not in ('*', '&', '-', '!', '~'):
+            return False
+        if n.k == 'bin' and n.v not in ('+', '-'):
+            return False
+    return True
+
+
+def _refs(e):
+    return set(n.v for n in e.walk() if n.k == 'ref' and not (n.x and n.x.get('dk') in ('EnumConstantDecl', 'FunctionDecl')))
+
+
+def _loads_memory(e):
+    """does evaluating e read memory other than plain variables?  (`&x->a.b` does not: it is address arithmetic on x)"""
+    e = strip_casts(e)
+    if e is None:
+        return False
+    if e.k == 'un' and e.v == '&':
+        return _addr_loads(e.c[0])
+    if e.k in ('ref', 'int', 'sizeof'):
+        return False
+    if e.k in ('member', 'index') or (e.k == 'un' and e.v == '*'):
+        return True
+    return any(_loads_memory(c) for c in (e.c or []))
+
+
+def _addr_loads(lv):
+    """does computing the ADDRESS of lvalue lv read memory?"""
+    lv = strip_casts(lv)
+    if lv is None or lv.k == 'ref':
+        return False
+    if lv.k == 'member':
+        if lv.x and lv.x.get('arrow'):
+            return _loads_memory(lv.c[0])       # value of the pointer expression
+        return _addr_loads(lv.c[0])
+    if lv.k == 'index':
+        return _loads_memory(lv.c[0]) or _loads_memory(lv.c[1])
+    if lv.k == 'un' and lv.v == '*':
+        return _loads_memory(lv.c[0])
+    return True
+
+
+def copy_propagate(f):
+    """returns (new Func or f, changed)"""
+    defs = {}
+    taken = set()
+    for b in f.blocks:
+        for idx, i in enumerate(b.ins):
+            for e in [x for x in [i.src] + list(i.args or []) + [i.dst] if x is not None]:
+                for n in e.walk():
+                    if n.k == 'un' and n.v == '&':
+                        s = strip_casts(n.c[0])
+                        if s is not None and s.k == 'ref':
+                            taken.add(s.v)
+            if i.dst is not None and i.dst.k == 'ref' and i.op in ('assign', 'call'):
+                defs.setdefault(i.dst.v, []).append((b, idx, i))
+    assigned = set(defs)
+    byid = dict((b.id, b) for b in f.blocks)
+    succs = dict((b.id, [s.id for s in b.succs()]) for b in f.blocks)
+    preds = {}
+    for k, ss in succs.items():
+        for s in ss:
+            preds.setdefault(s, []).append(k)
+
+    def reach(start, edges):
+        seen, st = set(), list(start)
+        while st:
+            x = st.pop()
+            if x in seen:
+                continue
+            seen.add(x)
+            st.extend(edges.get(x, []))
+        return seen
+
+    def uses_in(e, v):
+        return e is not None and any(n.k == 'ref' and n.v == v for n in e.walk())
+
+    for v, ds in sorted(defs.items()):
+        if len(ds) != 1 or v in f.param_types or v in taken or v.startswith('%') or v not in f.locals:
+            continue
+        b0, i0, ins0 = ds[0]
+        if ins0.op != 'assign' or ins0.src is None or not _pure(ins0.src) or '*' not in (f.locals.get(v) or ''):
+            continue
+        E = ins0.src
+        if v in _refs(E) or any(r.startswith('%') for r in _refs(E)):
+            continue
+        er = _refs(E)
+        # variables E depends on must not change while v is in use
+        if any(r in assigned and not (r in f.param_types and r not in defs) for r in er):
+            # a dependency that is itself assigned somewhere: only safe if never assigned inside the live region (checked below)
+            pass
+        use_sites = []
+        for b in f.blocks:
+            for idx, i in enumerate(b.ins):
+                if i is ins0:
+                    continue
+                if any(uses_in(e, v) for e in [i.src] + list(i.args or [])) or (i.dst is not None and i.dst.k != 'ref' and uses_in(i.dst, v)):
+                    use_sites.append((b.id, idx))
+            t = b.term
+            if t[0] in ('br', 'switch') and uses_in(t[1], v):
+                use_sites.append((b.id, len(b.ins)))
+            if t[0] == 'ret' and t[1] is not None and uses_in(t[1], v):
+                use_sites.append((b.id, len(b.ins)))
+        if not use_sites:
+            continue
+        F = reach(succs[b0.id], succs) | {b0.id}
+        if any(bid not in F for bid, _ in use_sites):
+            continue
+        ublocks = set(bid for bid, _ in use_sites)
+        Bk = reach(list(ublocks), preds)
+        # the definition block must not be re-entered (v defined inside a loop keeps its value only for that iteration)
+        in_loop = b0.id in reach(succs[b0.id], succs)
+        memory_dependent = _loads_memory(E)
+        ok = True
+        last_use = {}
+        for bid, idx in use_sites:
+            last_use[bid] = max(last_use.get(bid, -1), idx)
+        for bid in F & Bk:
+            blk = byid[bid]
+            lo = i0 + 1 if bid == b0.id else 0
+            leads_on = any(s in Bk for s in succs[bid])
+            hi = len(blk.ins) if (leads_on or bid not in last_use) else last_use[bid]
+            if in_loop and bid == b0.id:
+                lo, hi = 0, len(blk.ins)
+            for idx in range(lo, hi):
+                i = blk.ins[idx]
+                if i is ins0:
+                    continue
+                if i.dst is not None and i.dst.k == 'ref' and i.dst.v in er:
+                    ok = False
+                if memory_dependent and (i.op == 'call' or (i.op == 'assign' and i.dst is not None and i.dst.k != 'ref')):
+                    ok = False
+            if not ok:
+                break
+        if not ok:
+            continue
+
+        def sx(e):
+            if e is None:
+                return None
+            if e.k == 'ref' and e.v == v:
+                return E
+            if not e.c:
+                return e
+            return N(e.k, e.v, e.ty, e.loc, [sx(c) for c in e.c], e.x)
+
+        def sxs(e):
+            return simplify(sx(e)) if e is not None else None
+        nf = Func(f.name, f.node)
+        nf.params, nf.param_types, nf.locals = list(f.params), dict(f.param_types), dict(f.locals)
+        nf.ret_type, nf.unit, nf.static, nf.loc = f.ret_type, f.unit, f.static, f.loc
+        bmap = {}
+        for b in f.blocks:
+            nb = Block(b.id)
+            nb.loc = b.loc
+            nf.blocks.append(nb)
+            bmap[b.id] = nb
+        for b in f.blocks:
+            nb = bmap[b.id]
+            for i in b.ins:
+                if i is ins0:
+                    continue
+                nb.ins.append(Instr(i.op, i.dst if (i.dst is None or i.dst.k == 'ref') else sxs(i.dst), sxs(i.src) if i.src is not None else None,
+                                    [sxs(a) for a in i.args] if i.args is not None else None, loc=i.loc, x=i.x))
+            t = b.term
+            if t[0] == 'jmp':
+                nb.term = ('jmp', bmap[t[1].id])
+            elif t[0] == 'br':
+                nb.term = ('br', sxs(t[1]), bmap[t[2].id], bmap[t[3].id], t[4])
+            elif t[0] == 'switch':
+                nb.term = ('switch', sxs(t[1]), [(val, bmap[bb.id]) for val, bb in t[2]], bmap[t[3].id], t[4])
+            elif t[0] == 'ret':
+                nb.term = ('ret', sxs(t[1]) if t[1] is not None else None) + tuple(t[2:])
+            else:
+                nb.term = t
+        nf.entry = bmap[f.entry.id]
+        for nb in nf.blocks:
+            nb.preds = []
+        for nb in nf.blocks:
+            for s in nb.succs():
+                s.preds.append(nb)
+        nf.locals.pop(v, None)
+        return nf, True
+    return f, False
